@@ -36,6 +36,7 @@ type Profile struct {
 	DupTaints    bool     // external taints may add a second taint under the same key (different effect)
 	OwnNodesOnly bool     // pods are bound only to nodes of the group they select (twin runs: keeps groups independent in the environment too)
 	Big          bool     // one large group: tens to a hundred-odd nodes, bulk environment steps, short histories
+	HugeMax      bool     // large-group variant: the group's headroom may be 1001 / 1501 / 2001 nodes (one request crosses the 1000 mark)
 	OddConfig    bool     // option values that validation does not look at may be odd (fleet time-out of 0, 1ns, unparsable)
 	BulkWhat     []string // bulk steps this profile concentrates on (nil = all kinds)
 	Latency      bool     // the Kubernetes API may answer slowly (virtual time passes inside a scan)
@@ -204,6 +205,16 @@ func DrawConfig(rt *rapid.T, p *Profile) Config {
 			if gs.InitNodes > hi {
 				gs.InitNodes = hi
 			}
+			if p.HugeMax && rapid.IntRange(0, 2).Draw(rt, "hugeMax") == 0 {
+				gs.InitNodes = rapid.IntRange(lo, 12).Draw(rt, "hugeInit")
+				gs.ASGMax = int64(gs.InitNodes + rapid.SampledFrom([]int{1001, 1501, 2001, 1000, 1003}).Draw(rt, "headroom"))
+				if gs.Opts.AWS.LaunchTemplateID == "" && rapid.IntRange(0, 3).Draw(rt, "hugeFleet") > 0 {
+					gs.Opts.AWS.LaunchTemplateID, gs.Opts.AWS.LaunchTemplateVersion = "lt-0123456789abcdef0", "1"
+				}
+				if !auto {
+					gs.Opts.MaxNodes = int(gs.ASGMax) + rapid.SampledFrom([]int{0, 0, 1, 500}).Draw(rt, "maxNodesAbove")
+				}
+			}
 		}
 		if errs := controller.ValidateNodeGroup(gs.Opts); len(errs) > 0 {
 			rt.Fatalf("generator bug: configuration rejected by the validator: %v (%+v)", errs, gs.Opts)
@@ -308,6 +319,11 @@ func (w *World) drawTargetPods(rt *rapid.T, g int, forceClass ...string) (Action
 			return eq(S) + 1
 		case "aboveS":
 			return eq(S) + cap*int64(rapid.IntRange(1, 60).Draw(rt, "abovePct"))/100 + 1
+		case "needHuge": // far more than any headroom: the request must land exactly on the bound
+			if U == 0 {
+				return eq(S) + 1
+			}
+			return S * (cap + 5000*(cap/U)) / 100
 		case "need19", "need20", "need21", "need40", "need41", "need100", "need101": // exactly K more nodes bring utilisation down to the threshold
 			var K int64
 			fmt.Sscanf(class, "need%d", &K)
@@ -441,8 +457,11 @@ func (w *World) DrawAction(rt *rapid.T, p *Profile) (Action, string) {
 		}
 		return Action{Op: "scan", Flag: sync, Order: order}, "scan"
 	case "targetUtil":
+		if asg := w.ASG(g); p.Big && asg != nil && asg.Max-asg.Desired > 1000 && rapid.Bool().Draw(rt, "hugeNeed") {
+			return w.drawTargetPods(rt, g, "needHuge")
+		}
 		if p.Big && rapid.IntRange(0, 2).Draw(rt, "exactNeed") == 0 {
-			return w.drawTargetPods(rt, g, "need19", "need20", "need21", "need40", "need41", "need100", "need101")
+			return w.drawTargetPods(rt, g, "need19", "need20", "need21", "need40", "need41", "need100", "need101", "needHuge")
 		}
 		return w.drawTargetPods(rt, g)
 	case "advance":
